@@ -38,6 +38,8 @@ def check_tiles(job):
         cfg = {"pos": (n, x, y), "coordsys": csn}
         part.case(nontrivial=True, n=1)
         t = toast.create_single_tile(Pos(n, x, y), coordsys=cs)
+        # the tile is held while the other coordinate system is used (it must not be affected)
+        toast.create_single_tile(Pos(n, x, y), coordsys=cs_of(not planetary))
         lon, lat = toast.toast_tile_get_coords(t)
         if lon.shape != (256, 256) or lat.shape != (256, 256):
             bad("grid/shape", "shapes %r %r" % (lon.shape, lat.shape), cfg)
